@@ -135,6 +135,19 @@ def path(f, st, depth=0):
                 return path(f, src[0], depth + 1)
         if kind == "param":
             return "p:" + d["name"]
+        if kind == "binding" and d.get("decomp"):
+            # `auto& [key, pr] = *it;` / `for (auto& [key, pr] : map)`: pr is the second member of the unnamed variable
+            base = "l:" + d["decomp_name"]
+            if depth < 30:
+                tgt = _ref_target(f, d["decomp"])
+                if tgt is not None:
+                    tp = path(f, tgt, depth + 5)
+                    if tp is not None and "l:__" not in tp:
+                        base = tp
+            if re.match(r"^(const )?std::pair<", d.get("decomp_type", "")) and d.get("bidx") in (0, 1):
+                mem = ("first", "second")[d["bidx"]]
+                return base[1:] + "->" + mem if base.startswith("*") else base + "." + mem
+            return "%s.$%s" % (base, d.get("bidx"))
         if kind in ("local", "static_local", "binding"):
             if kind == "local" and depth < 30:
                 # a local reference is an alias of the lvalue it is bound to (and a never-reassigned pointer copy of
